@@ -26,6 +26,18 @@ COMMON_ASSUMPTIONS = [
     "the reference models in /verif/sim/plonksim/src (rm_*.rs) are the trusted base.",
 ]
 
+def c17_coverage(agg):
+    want = int(agg["notes"].get("enum_runs", "0") or 0)
+    got = agg["probes"].get("enumeration_chunks", 0)
+    complete = want > 0 and got == want
+    return {
+        "exhaustive": bool(complete),
+        "exhaustive_scope": "only the enumerated sub-spaces: every single-bit flip of " + agg["notes"].get("enumerated_subspaces", "?") + " (minimal deployment); everything else is seeded exploration",
+        "enumeration_chunks_run": got,
+        "enumeration_chunks_total": want,
+    }
+
+
 PROPS = {
     "C01": {
         "level": "exploration",
@@ -54,6 +66,14 @@ PROPS = {
         "budget_s": {"quick": 400, "thorough": 3000},
         "rule": "one evaluation = one restart comparison: a node's in-memory Prover / Verifier / Proof / PublicParameters is dropped and reloaded from the bytes on the simulated disk (no disk faults in this class); checked are encode(decode(b)) == b, serialized_size == len, identical proof bytes from original and reloaded prover under the same RNG script and independently chosen environments, identical verdicts of original and reloaded verifier on every message of the run's corpus (honest + seeded channel-corrupted messages, accepts and rejects), parameters reloaded via to_var_bytes/from_slice compiling to byte-identical keys, and canonicity of every 1008-byte string the proof decoder accepts. Non-trivial = every comparison involves a reloaded object; distinct = hash of (scenario, comparison kind, message).",
         "assumptions": [],
+    },
+    "C17": {
+        "coverage_fn": c17_coverage,
+        "level": "fault_enumeration",
+        "runs": {"quick": 420, "thorough": 12000},
+        "budget_s": {"quick": 500, "thorough": 3000},
+        "rule": "one evaluation = one faulted byte string fed to a checked decoder (Prover::try_from_bytes incl. the raw commit key, Verifier::try_from_bytes, Proof::from_slice, PublicParameters::from_slice, Compiler::compile_with_compressed) in a build with debug assertions and overflow checks on. Enumerated completely (exhaustive sub-spaces): every single-bit flip of the minimal deployment's verifier key, proof and compressed circuit, of the prover key's header and the first and last 512 bytes of each of its sections (label, prover key, raw commit key, verifier key), and of the parameters' opening key and first/last four points. Explored by seeded search: the disk-fault catalogue (multi-bit flips, short / torn / lost / misdirected writes, zeroed blocks, duplication, garbage, edits of every length and count field to 0,1,v+-1,2^31,2^32,2^63,u64::MAX,..., raw-point edits: flag byte, non-reduced limbs, infinity flag with coordinates, off-curve, swapped coordinates; non-canonical scalars; compressed-G1 flag games; structure-aware compressed-circuit edits) on generated deployments. Oracle: no panic (abort / hang caught by the supervisor through pre-case log lines), peak allocation <= 16 x input + 1 MiB (compressed circuits: bounded by the parameters' capacity), accepted values re-encode to bytes that pass independent strict parsers (canonical scalars, valid compressed points, raw points with flag in {0,1}, reduced limbs, on curve, prime-order subgroup, non-identity opening key) and can be used (prove / verify / compile) without panicking. Non-trivial = the bytes differ from the stored ones; distinct = hash of the faulted bytes.",
+        "assumptions": ["no claim is made about what a semantically altered but well-formed key proves or accepts (the formats carry no integrity tag)", "in the quick tier one quarter of the accepted single-bit neighbours of the prover key are additionally used for proving, in the thorough tier all of them"],
     },
     "C18": {
         "level": "exploration",
